@@ -10,6 +10,8 @@ from pyvc.sym import And, Or, Not, Implies, Iff, Ite, deep_eq, deep_lt, Sym
 from spec.groups import MOD, ALL_SYMS, FUSE_S, canon, is_canonical, zero, sym_class
 from spec.tensor import sym_tensor, check_wf, view, leg_charge, make_config
 from contracts.t_contract import mk
+import contracts.c05_ncon as NC
+from contracts.c05_ncon import h_ncon_signs, h_ncon_default_order_accepted, h_ncon_some_order_accepted
 
 PROPERTY = 'C05'
 C_ = 'yastn.tensor._contractions'
@@ -21,10 +23,22 @@ ASSUMPTIONS = [
     "its frame part is an obligation of C15)",
     "shapes enumerated (blocks 1..2/3, native rank <= 4, groups of 1..2 legs, 1..2 pairs); charges, dims, offsets symbolic",
 ]
+import contracts.ops_algebra as OA
+from contracts.ops_algebra import h_fkron_car, h_fkron_products
+
+BOUNDED_HARNESSES = {'h_fkron_car', 'h_fkron_products'}
+FUNCTIONS += NC.FUNCTIONS
+ASSUMPTIONS += [
+    "ncon sign forms: one fermionic Z2 parity per edge (signs depend on charges only through the parities of the declared "
+    "fermionic components, each contributing independently: the contract of swap_gate proved in h_swap_gate / "
+    "h_swap_gate_charge); tensordot / trace / transpose enter through their leg-bookkeeping contracts (values: C01); "
+    "networks enumerated (22 shapes, up to 4 tensors / 7 edges, 1-2 declared swaps, all or sampled orders), parities symbolic",
+]
 NOT_DECIDED = [
-    "order independence of ncon/einsum networks with swap gates (needs the GF(2) sign-form generator of DESIGN §2.5; "
-    "not built in this round -- known anomaly class F7 is recorded in DESIGN §7)",
-    "dense CAR realised by fkron (exact dense matrices): bounded stand-in not built",
+    "ncon/einsum order independence beyond the enumerated network shapes",
+    "dense CAR realised by fkron: only the bounded stand-in (h_fkron_car, h_fkron_products: every fermionic operator family x "
+    "symmetry, 2-3 sites, all site assignments and application orders; floating point) -- the sign/string bookkeeping itself "
+    "is proved in h_fkron_strings",
 ]
 
 
@@ -352,4 +366,6 @@ def units(tier):
         for k in (2, 3):
             for perm in itertools.permutations(range(k)):
                 U.append(('h_fkron_strings', f"{sym},f={fermionic},sites={perm}", dict(sym=sym, k=k, perm=perm, fermionic=fermionic)))
+    U += NC.units(tier)
+    U += OA.units_c05(tier)
     return U
